@@ -263,6 +263,9 @@ class And(CompoundQuery):
         return s
 
     def estimate_size(self, ixreader):
+        if not self.subqueries:
+            # An empty And matches nothing (see CompoundQuery.matcher())
+            return 0
         return min(q.estimate_size(ixreader) for q in self.subqueries)
 
     def _matcher(self, subs, searcher, context):
